@@ -24,18 +24,19 @@ import (
 // earlier application Recv at the destination returned exactly m (byte-equal signed
 // message, so an ack or clear naming a different message can never stand in for it).
 type c21World struct {
-	cw       *sig.ClientWorld
-	names    []string
-	toIssue  []pendingOp
-	issued   int
-	maxReset int
-	resets   int
-	lossy    bool
-	drops    int
-	viol     *dsim.Violation
-	sends    []*sig.SendOp
-	rerefs   int
-	relSeq   int
+	cw                   *sig.ClientWorld
+	names                []string
+	toIssue              []pendingOp
+	issued               int
+	maxReset             int
+	resets               int
+	lossy                bool
+	drops                int
+	viol                 *dsim.Violation
+	sends                []*sig.SendOp
+	rerefs               int
+	relSeq               int
+	restarts, maxRestart int
 }
 
 func init() {
@@ -45,7 +46,7 @@ func init() {
 		Cfg:        defaultCfg,
 		Real:       []string{"signaling/rpc/server.Server", "signaling/rpc/client.Client (Send incl. cancellation/clear path, Recv, session routine)", "util keyed/routine/backoff", "peer.SignedMsg"},
 		Stub:       []string{"srpc transport replaced by simulator-owned message streams", "stream identity callback", "util/broadcast lock instrumented"},
-		FaultKinds: []string{"fault:stream-reset", "fault:clock-jump", "fault:send-cancel", "fault:wire-drop", "fault:wire-dup", "fault:peer-ref-released"},
+		FaultKinds: []string{"fault:stream-reset", "fault:clock-jump", "fault:send-cancel", "fault:wire-drop", "fault:wire-dup", "fault:peer-ref-released", "fault:relay-restart"},
 	})
 }
 
@@ -66,6 +67,9 @@ func (w *c21World) Setup(s *dsim.Sim) {
 		w.cw.AddClient(n, bo)
 	}
 	w.maxReset = t.Draw(4, "max-resets")
+	if t.Bool(1, 3, "relay-restarts") {
+		w.maxRestart = 1 + t.Draw(2, "max-restarts")
+	}
 	w.lossy = t.Bool(1, 4, "lossy-relay")
 	w.cw.OnSendDone = func(op *sig.SendOp) {
 		if op.Err != nil {
@@ -162,6 +166,13 @@ func (w *c21World) Actions(s *dsim.Sim, add func(dsim.Action)) {
 				so.Cancel()
 			}})
 		}
+	}
+	if s.Phase == dsim.PhaseChaos && w.restarts < w.maxRestart {
+		add(dsim.Action{Name: "5flt:relay-restart", Weight: 1, Fault: true, Fire: func() {
+			w.restarts++
+			s.Count("fault:relay-restart")
+			w.cw.Net.RestartRelay()
+		}})
 	}
 	if w.resets < w.maxReset {
 		w.cw.Net.ResetActions(func(a dsim.Action) {
